@@ -185,6 +185,15 @@ class TSeq(Type):
         return SymList(Seq(n, cols), elem_wrap=wrap)
 
 
+def _tseq_empty(self, ctx, name):
+    sl = self.fresh(ctx, name)
+    sl.seq = Seq(z3.IntVal(0), sl.seq.cols)
+    return sl
+
+
+TSeq.empty = _tseq_empty
+
+
 class TAObj(Type):
     def __init__(self, clsname, sort=None):
         self.clsname = clsname
